@@ -62,7 +62,8 @@ CHECKS = {
              "patch carries the identity of a patch before (its own, or under rename that of the renamed patch) or, under "
              "uncommit, is an existing commit taken as it is; rename keeps the very commit; undo / redo / reset re-create "
              "nothing; new gives the requested identity and leaves the others; a refresh that changes nothing creates no "
-             "commit. End-to-end direct oracle on commits with legacy encodings (ISO-8859-1, windows-1252, valid-UTF-8 "
+             "commit; stg edit -m changes only the named patch's identity and an edit that changes nothing runs no "
+             "transaction. End-to-end direct oracle on commits with legacy encodings (ISO-8859-1, windows-1252, valid-UTF-8 "
              "bytes under a declared single-byte encoding), odd identities, time zones and git notes through every "
              "re-creating operation (fixes F15, F28).",
         note="Partial: byte-level decoding / re-encoding (encoding header, encoding_rs tables, git's i18n.commitEncoding) "
